@@ -115,6 +115,9 @@ inductive Op where
   | loopStep
   | restore (m : Mode)
   | finalize
+  /-- a read-only use of a (paused or finished) sim: `to_json`, `shrink(inplace=False)`, `save(shrink=True)` to a
+      file, `repr`, `loop.to_df()`, handing a copy to a `MultiSim` -/
+  | observe
   deriving Repr
 
 def apply (c : Cfg σ) (s : State σ) : Op → State σ × Except Err Unit
@@ -123,8 +126,16 @@ def apply (c : Cfg σ) (s : State σ) : Op → State σ × Except Err Unit
   | .loopStep => loopRunOneStep c s
   | .restore _ => (s, .ok ())
   | .finalize => finalize s
+  | .observe => (s, .ok ())
 
 def applyAll (c : Cfg σ) (s : State σ) (ops : List Op) : State σ := ops.foldl (fun s op => (apply c s op).1) s
+
+/-- Operations that leave the abstract state alone: restores (of any mode, in any order, of copies of copies) and
+    read-only uses. -/
+def Op.transparent : Op → Bool
+  | .restore _ => true
+  | .observe => true
+  | _ => false
 
 /-- Operations other than a manual `finalize` -/
 def Op.noFinalize : Op → Bool
